@@ -415,7 +415,7 @@ func mutateOne(r *core.RNG, a invocation) (invocation, string) {
 			pools := posPools[a.Cmd]
 			i := r.Intn(len(pools))
 			nv := neighbourOf(r, pools[i], v.Pos[i])
-			if strings.HasPrefix(v.Pos[i], "@") && r.Chance(1, 3) {
+			if _, isLit := stockFiles[litFile(v.Pos[i])]; isLit && strings.HasPrefix(v.Pos[i], "@") && r.Chance(1, 3) {
 				// the same bytes, once as a literal argument and once as the
 				// whole content of a file given in its place
 				nv = litFile(v.Pos[i])
